@@ -27,10 +27,12 @@ CLAIMED = {
              "subscriptions the k-th partition goes to member k mod m so loads are within one. Both models are tied to "
              "/repo by byte-identical differential comparison on a slice (quick) or all (thorough) of the property's "
              "exhaustive space plus random inputs. PARTIAL for the sticky assignor: StickyAssignmentExecutor is ported to "
-             "Lean (Model/StickyAlg.lean, ~350 lines, single-generation user data) and tied by byte-identical T-diff, but "
-             "validity/balance of the port are not proved for all inputs; the Lean executable statement (cover, "
-             "nothing-else, KIP-54 balance; soundness lemmas proved) is evaluated on every explored output, and "
-             "non-termination / exceptions are findings.",
+             "Lean (Model/StickyAlg.lean, ~350 lines, single-generation user data), tied by byte-identical T-diff, and "
+             "'nothing else is assigned' IS proved for the port for every input, oracle and fuel (sticky_nothing_else: "
+             "invariant through assignment, movement bookkeeping incl. get_partition_to_be_moved, revert and fixed-consumer "
+             "handling); exact cover, KIP-54 balance and termination of the port are NOT proved: the Lean executable "
+             "statement (cover, nothing-else, KIP-54 balance; soundness lemmas proved) is evaluated on every explored "
+             "output, and non-termination / exceptions are findings.",
         design="3/C14",
         note="trusted: Lean kernel (+propext, Classical.choice, Quot.sound); T-diff harness, stub ClusterMetadata, "
              "zero-padded names; sticky assignor validity/balance only validated per explored input, not proved.",
